@@ -317,6 +317,39 @@ func init() {
 			return fallThrough{}
 		}
 	}
+	// codecs other than the keeper's stub (package-level ModuleCdc etc.): binary marshalling is
+	// the pack/unpack identity; amino type registration is a no-op.
+	for _, recv := range []string{"(*github.com/cosmos/cosmos-sdk/codec.ProtoCodec)", "(*github.com/cosmos/cosmos-sdk/codec.AminoCodec)", "(*github.com/cosmos/cosmos-sdk/codec.LegacyAmino)"} {
+		for _, m := range []string{"Marshal", "MustMarshal", "MarshalLengthPrefixed", "MustMarshalLengthPrefixed"} {
+			must := strings.HasPrefix(m, "Must")
+			externals[recv+"."+m] = func(fr *frame, args []value) value {
+				bz := prim_verifPack(fr, args[1:])
+				if must {
+					return bz
+				}
+				return tuple{bz, iface{}}
+			}
+		}
+		for _, m := range []string{"Unmarshal", "MustUnmarshal", "UnmarshalLengthPrefixed", "MustUnmarshalLengthPrefixed"} {
+			must := strings.HasPrefix(m, "Must")
+			externals[recv+"."+m] = func(fr *frame, args []value) value {
+				prim_verifUnpack(fr, args[1:])
+				if must {
+					return nil
+				}
+				return iface{}
+			}
+		}
+	}
+	for _, n := range []string{
+		"(*github.com/cosmos/cosmos-sdk/codec.LegacyAmino).RegisterConcrete", "(*github.com/cosmos/cosmos-sdk/codec.LegacyAmino).RegisterInterface",
+		"(*github.com/cosmos/cosmos-sdk/codec.LegacyAmino).Seal", "(*github.com/tendermint/go-amino.Codec).RegisterConcrete",
+		"(*github.com/tendermint/go-amino.Codec).RegisterInterface", "(*github.com/tendermint/go-amino.Codec).Seal",
+		"github.com/cosmos/cosmos-sdk/crypto/codec.RegisterCrypto", "github.com/cosmos/cosmos-sdk/codec/legacy.RegisterAminoMsg",
+		"github.com/cosmos/cosmos-sdk/types.RegisterLegacyAminoCodec", "github.com/cosmos/cosmos-sdk/types/msgservice.RegisterMsgServiceDesc",
+	} {
+		externals[n] = noop
+	}
 	registerFmt()
 	registerErrors()
 }
@@ -421,6 +454,15 @@ func (i *interpreter) bytesCompare(a, b value) value {
 					if i.decide(i.tc.Eq(ox.t, oy.t), "bytes.Compare opaque") {
 						continue
 					}
+				}
+			}
+			// two different abstract hashes: their order is a symbolic, consistent rank
+			if hx, isH := x[k].(absByte); isH {
+				if hy, isH2 := y[k].(absByte); isH2 && hx.id != hy.id {
+					if i.decide(i.tc.Lt(i.hashRank(hx.id), i.hashRank(hy.id)), "order of two hashes") {
+						return -1
+					}
+					return 1
 				}
 			}
 			c1, a1, b1 := absRank(x[k])
